@@ -15,10 +15,24 @@ Record quirks := mkQuirks {
   q_lit_eof : bool;        (* a literal rune U+FFFD "matches" at EOF without consuming *)
   q_stale_ctx : bool;      (* &{} !{} #{} blocks see c.pos / c.text of the last action *)
   q_recover_scope : bool;  (* a recovery expression run by a throw shares the thrower's label scope *)
-  q_memo_nocharge : bool   (* memo hits are not charged to the expression budget *)
+  q_memo_nocharge : bool;  (* memo hits are not charged to the expression budget *)
+  q_memo_label : bool;     (* results of label-binding expressions are memoised too: a hit skips the binding *)
+  q_lr_memo_state : bool   (* a finished left-recursive leader stays memoised: entering it again at that offset
+                              returns the result without replaying the state changes it made *)
 }.
-Definition faithful : quirks := mkQuirks true true true true.
-Definition repaired : quirks := mkQuirks false false false false.
+Definition faithful : quirks := mkQuirks true true true true true true.
+Definition repaired : quirks := mkQuirks false false false false false false.
+
+(* expressions whose evaluation may bind a label in the scope they are evaluated in *)
+Fixpoint scope_writes (e : expr) : bool :=
+  match e with
+  | ELab _ _ _ => true
+  | ESeq _ es => (fix any (l : list expr) := match l with [] => false | x :: l' => scope_writes x || any l' end) es
+  | EAct _ _ e' => scope_writes e'
+  | ERec _ e' _ _ => scope_writes e'
+  | EThrow _ _ => true
+  | _ => false
+  end.
 
 Record cfg := mkCfg {
   cQ : quirks;
@@ -187,6 +201,8 @@ Fixpoint memo_lookup (o : nat) (k : mkey) (m : list (nat * mkey * rtuple)) : opt
 Definition getMemoized (k : mkey) (s : pstate) : option rtuple := memo_lookup (cur_off s) k (memo s).
 Definition setMemoized (p : savepoint) (k : mkey) (r : rtuple) (s : pstate) : pstate :=
   set_memo ((offset (sp_pos p), k, r) :: memo s) s.
+Definition dropMemoized (p : savepoint) (k : mkey) (s : pstate) : pstate :=
+  set_memo (filter (fun e : nat * mkey * rtuple => negb (Nat.eqb (offset (sp_pos p)) (fst (fst e)) && mkey_eqb k (snd (fst e)))) (memo s)) s.
 
 (* ---- rule table: p.rules[r.name] = r, the last rule of a name wins ---- *)
 Definition find_rule (nm : rname) (g : grammar) : option rule :=
@@ -462,7 +478,9 @@ Section Step.
         let startMark := pt s in
         (last <- leader_loop loopfuel r startMark 0 (mkRt VNil false startMark) (errs s) ;;
          modify (restore (rt_end last)) ;;;
-         modify (setMemoized startMark (KRule (r_name r)) last) ;;;
+         modify (if q_lr_memo_state (cQ c) || negb (has_state (cT c))
+                 then setMemoized startMark (KRule (r_name r)) last
+                 else dropMemoized startMark (KRule (r_name r))) ;;;
          ret (rt_v last, rt_b last)) s
     end.
 
@@ -531,7 +549,8 @@ Section Step.
     else Ok (o_memoize (cO c)) s.
 
   Definition parseExprWrapBody (e : expr) : M (val * bool) :=
-    active <- memo_active ;;
+    active0 <- memo_active ;;
+    let active := active0 && (q_memo_label (cQ c) || negb (scope_writes e)) in
     if active then
       fun s =>
         match getMemoized (KExpr (node_id e)) s with
